@@ -45,3 +45,15 @@ package modifiers
 //@   ensures [only_if_none] result <==> old(contact.ticket) == nil
 //@   ensures [event] result ==> (len(ghost.evlog) == old(len(ghost.evlog)) + 1 && typeis(last(ghost.evlog), *events.TicketOpenedEvent) && last(ghost.evlog).(*events.TicketOpenedEvent).Ticket != nil && last(ghost.evlog).(*events.TicketOpenedEvent).Ticket.UUID == contact.ticket.uuid)
 //@   ensures [no_event] !result ==> ghost.evlog == old(ghost.evlog)
+
+// URNs: the raw URN list (urn text incl. channel affinity) is the caller-visible state
+//@ func (m *URNsModifier) Apply
+//@   uses urn_normalize_idem
+//@   requires m != nil && contact != nil
+//@   assigns contact.urns, effects(flows.EventCallback)
+//@   ensures [modified_iff_changed] result <==> !(len(contact.urns) == old(len(contact.urns)) && (forall k int :: 0 <= k && k < len(contact.urns) ==> contact.urns[k].urn == old(contact.urns[k].urn)))
+//@   ensures [event] result ==> (len(ghost.evlog) > old(len(ghost.evlog)) && typeis(last(ghost.evlog), *events.ContactURNsChangedEvent) && len(last(ghost.evlog).(*events.ContactURNsChangedEvent).URNs) == len(contact.urns) && (forall k int :: 0 <= k && k < len(contact.urns) ==> last(ghost.evlog).(*events.ContactURNsChangedEvent).URNs[k] == contact.urns[k].urn))
+//@   ensures [no_change_event] !result ==> (forall k int :: old(len(ghost.evlog)) <= k && k < len(ghost.evlog) ==> !typeis(ghost.evlog[k], *events.ContactURNsChangedEvent))
+//@ loop 1
+//@   invariant forall k int :: old(len(ghost.evlog)) <= k && k < len(ghost.evlog) ==> !typeis(ghost.evlog[k], *events.ContactURNsChangedEvent)
+//@   invariant len(ghost.evlog) >= old(len(ghost.evlog))
